@@ -386,6 +386,15 @@ def run_all(exe, exes, consts, verbose=False, per_job=4000):
 
 
 # ---------------------------------------------------------------------------------------------- trace validation
+def _tlc_retry(*a, **kw):
+    """vlib.tlc, repeated once when the JVM was terminated from outside (SIGTERM/SIGKILL that is not our timeout)"""
+    r = vlib.tlc(*a, **kw)
+    if r.error and r.rc in (143, 137, 130, -15) and "timeout" not in r.error:
+        vlib.log(f"[C13] TLC was terminated from outside (rc={r.rc}); running it again")
+        r = vlib.tlc(*a, **kw)
+    return r
+
+
 def trace_cfg(consts, batch):
     return vlib.write_cfg(vlib.BUILD / "cfg" / ("TraceStrTimeBatch.cfg" if batch else "TraceStrTimeOne.cfg"),
                           "SPECIFICATION Spec\n%sCHECK_DEADLOCK FALSE\nCONSTANTS RecalcLocal = %d\n RecalcGmt = %d\n RepeatRejected = %s\n"
@@ -400,7 +409,7 @@ def _validate_lines(lines, cfg, timeout=900):
         with open(tp, "w") as f:
             for ln in lines:
                 f.write(json.dumps(ln, separators=(",", ":")) + "\n")
-        r = vlib.tlc("TraceStrTime", cfg, workers=1, env={"TRACE": str(tp)}, timeout=timeout, heap="3g", dump_trace=False)
+        r = _tlc_retry("TraceStrTime", cfg, workers=1, env={"TRACE": str(tp)}, timeout=timeout, heap="2g", dump_trace=False)
     finally:
         vlib.rm(d)
     if r.error:
@@ -513,6 +522,19 @@ def extract(ck, exe):
 _UNPATCHED = re.compile(r"^%(c|Ec|EX|O[HIMS]|[-_0^#+]+\d*[HMSIklsTRrc]|\d+[HMSIklsTRrc])$")
 
 
+def _field_class(tok):
+    c = tok[-1] if tok.startswith("%") else ""
+    if tok.startswith("%Q"):
+        return "fraction"
+    if c in "HkIlMSTRrs":
+        return "time"
+    if c in "pP":
+        return "ampm"
+    if c in "zZ":
+        return "zone"
+    return "date" if c else "literal"
+
+
 def signature(e, j, consts):
     """canonical signature (shape class) of the rejected call j (-1: the constructor) of execution e, run verbosely"""
     new = e.lines[0]
@@ -551,10 +573,10 @@ def signature(e, j, consts):
             g = tau + (P - ((e.sc.base + tau - a) % P))
             if tau <= t < g:
                 return "stale:local:dst-transition-off-recalc-grid"
-    cls = "length" if diff is None else "+".join(sorted(set(diff))[:4])
+    cls = "length" if diff is None else "+".join(sorted({_field_class(x) for x in diff}))
     prev = [x["t"] for x in e.raw[1:1 + j] if not x.get("skipped")]
     step = "first" if not prev else "back" if t < max(prev) else "same" if t == prev[-1] else "forward"
-    return f"render:{mode}:{cls}:{step}:{'libc' if h['slow'] else 'cached'}"
+    return f"render:{mode}:{cls}:{step}"
 
 
 def confirm_and_report(ck, exe, rejected, consts):
@@ -604,7 +626,7 @@ def run_model(cfg, scs, consts, small=False, coverage=False, timeout=1500):
         with open(p, "w") as f:
             for s in scs:
                 f.write(json.dumps(s.scen_json(consts, s.instants(small))) + "\n")
-        r = vlib.tlc("StrTime", cfg, env={"SCEN": str(p)}, coverage=coverage, timeout=timeout)
+        r = _tlc_retry("StrTime", cfg, env={"SCEN": str(p)}, coverage=coverage, timeout=timeout)
     finally:
         vlib.rm(d)
     if r.error:
@@ -613,12 +635,12 @@ def run_model(cfg, scs, consts, small=False, coverage=False, timeout=1500):
     return r
 
 
-def exes_from_behaviours(behs, scs, small, rng, pool, extra_patterns, src):
+def exes_from_behaviours(behs, scs, small, rng, pool, extra_patterns, src, extra_every=1):
     """every exported sequence becomes executions: the canonical all-fields pattern of its shape, plus
     `extra_patterns` generated patterns of the same shape class"""
     out = []
     inst = [s.scen_json({"recalc_local": 1, "anchor_local": 0, "recalc_gmt": 1, "anchor_gmt": 0}, s.instants(small))["inst"] for s in scs]
-    for b in behs:
+    for nb, b in enumerate(behs):
         sc = scs[b["sc"] - 1]
         mode = "g" if b["mode"] == "gmt" else "l"
         seq = [tuple(inst[b["sc"] - 1][i - 1]) for i in b["seq"]]
@@ -626,7 +648,7 @@ def exes_from_behaviours(behs, scs, small, rng, pool, extra_patterns, src):
         out.append(Exe(sc, mode, canonical(b["shape"], eok), seq, src))
         cls = (b["shape"]["p1"], b["shape"]["p2"])
         cands = pool.get(cls)
-        for _ in range(extra_patterns if cands else 0):
+        for _ in range(extra_patterns if (cands and nb % extra_every == 0) else 0):
             for _try in range(20):
                 toks = rng.choice(cands)
                 if eok or not uses_epoch(toks):
@@ -755,6 +777,11 @@ def run(ck):
         "zone transition tables come from python's zoneinfo; every call's libc calendar (wall clock, offset, abbreviation) is compared with them by the trace spec (mismatch = infrastructure error)",
         "the cache path is observed through an interposed strftime (no private state is read); the recalculation rule is extracted by probing and must be a fixed grid, else the model is reported as drifted",
     ]
+    for old in vlib.REPLAY.glob(f"{ck.prop}-*.json"):     # replay files of earlier runs of this check
+        try:
+            old.unlink()
+        except OSError:
+            pass
     exe = build_exe()
     consts = extract(ck, exe)
     ck.extra["extracted_constants"] = dict(consts)
@@ -762,27 +789,51 @@ def run(ck):
     utc = Scenario("UTC", epoch(2024, 2, 29))
     cex = []
 
+    # all TLC runs on the model are independent of each other: start them together, use the results in order below
+    mp = 4 if quick else 5
+    sel24 = [x for x in on if "@2024" in x.name]
+    cov_scs = on if quick else sel24[:14]
+    all_sets = [(3, [on[k] for k in (1, 5, 7)] if quick else sel24)] + ([] if quick else [(4, on[1:8:3])])
+    tp = ThreadPoolExecutor(max_workers=6)
+    F = {"mc": tp.submit(run_model, model_cfg("MC_StrTime.cfg", consts), on, consts)}
+    F["cover"] = tp.submit(run_model, model_cfg("Export_StrTime.cfg", consts, invs="", shapes="few" if quick else "all", export=True),
+                           cov_scs, consts, quick)
+    for maxlen, sub in all_sets:
+        F[f"all{maxlen}"] = tp.submit(run_model, model_cfg(f"ExportAll{maxlen}_StrTime.cfg", consts, invs="NoStaleField", shapes="few",
+                                                            export=True, view=False, maxlen=maxlen), sub, consts, True)
+    F["cov"] = tp.submit(run_model, model_cfg("MC_StrTime_cov.cfg", consts), [x for x in on if x.trans][:1 if quick else 3], consts, False, True)
+    F["static"] = tp.submit(run_model, model_cfg("MC_StrTime_static.cfg", consts, spec="SpecStatic", invs="CtorOK SplitOK FracOK",
+                                                 view=False, maxpat=mp), [utc], consts)
+    F["static2"] = tp.submit(run_model, model_cfg("MC_StrTime_static2.cfg", consts, spec="SpecStatic", invs="CtorOK SplitOK FracOK",
+                                                  view=False, repeat=True, maxpat=mp), [utc], consts)
+    if off:
+        F["off"] = tp.submit(run_model, model_cfg("MC_StrTime_offgrid.cfg", consts, modes=("local",)), off, consts)
+        F["xoff"] = tp.submit(run_model, model_cfg("Export_StrTime_off.cfg", consts, invs="", shapes="few", modes=("local",), export=True),
+                              off, consts, True)
+    if consts["accepts_opaque"]:
+        F["opq"] = tp.submit(run_model, model_cfg("MC_StrTime_opaque.cfg", consts, shapes="opaque"), on[:2], consts)
+        F["xopq"] = tp.submit(run_model, model_cfg("Export_StrTime_opq.cfg", consts, invs="", shapes="opaque", export=True), on[:2], consts, True)
+    tp.shutdown(wait=False)
+
     # 1. static sweep: constructor over abstract patterns, fraction writer over boundary values
-    rs = run_model(model_cfg("MC_StrTime_static.cfg", consts, spec="SpecStatic", invs="CtorOK SplitOK FracOK", view=False,
-                             maxpat=4 if quick else 5), [utc], consts)
+    rs = F["static"].result()
     ck.add_tlc(rs, "MC_StrTime_static")
     if rs.violated:
         last = rs.trace[-1] if rs.trace else {"pat": [], "fv": 0}
         pat = "".join(ABSTRACT[x] for x in last["pat"]) if rs.violated != "FracOK" else "%Qms|%Qus|%Qns"
         cex.append(Exe(utc, "g", pat, [(43200, last["fv"])] if rs.violated == "FracOK" else [], "tlc-counterexample-static"))
-        rs2 = run_model(model_cfg("MC_StrTime_static2.cfg", consts, spec="SpecStatic", invs="CtorOK SplitOK FracOK", view=False,
-                                  repeat=True, maxpat=4 if quick else 5), [utc], consts)
+        rs2 = F["static2"].result()
         ck.add_tlc(rs2, "MC_StrTime_static(repeat rejected)")
         if rs2.violated:
             ck.drifted(f"static model violates {rs2.violated} beyond the extracted constructor switch")
     # 2. exhaustive: every sequence of boundary instants, on-grid scenarios, all shapes, both modes
-    rm = run_model(model_cfg("MC_StrTime.cfg", consts), on, consts)
+    rm = F["mc"].result()
     ck.add_tlc(rm, "MC_StrTime")
     if rm.violated:
         cex.append(exe_from_cex(rm, on, False))
     else:
         # vacuity self-test: every path through StringFromTime::format_timestamp is taken in the model (-coverage run)
-        rc = run_model(model_cfg("MC_StrTime_cov.cfg", consts), on[1:4], consts, coverage=True)
+        rc = F["cov"].result()
         ck.add_tlc(rc, "MC_StrTime(-coverage)")
         ck.extra["coverage_actions"] = {k: list(v) for k, v in rc.coverage.items()}
         for act in ("AFallback", "ARebuild", "APatch", "ASame"):
@@ -792,12 +843,12 @@ def run(ck):
     # 3. the same on scenarios with an offset change off the recalculation grid, and on shapes with a composite time
     #    conversion: TLC counterexamples here are replayed on the code like any other
     if off:
-        ro = run_model(model_cfg("MC_StrTime_offgrid.cfg", consts, modes=("local",)), off, consts)
+        ro = F["off"].result()
         ck.add_tlc(ro, "MC_StrTime_offgrid")
         if ro.violated:
             cex.append(exe_from_cex(ro, off, False))
     if consts["accepts_opaque"]:
-        rq = run_model(model_cfg("MC_StrTime_opaque.cfg", consts, shapes="opaque"), on[:2], consts)
+        rq = F["opq"].result()
         ck.add_tlc(rq, "MC_StrTime_opaque")
         if rq.violated:
             cex.append(exe_from_cex(rq, on[:2], False))
@@ -813,22 +864,18 @@ def run(ck):
     exes = list(cex)
     n_tlc = 0
     small = quick
-    cov_scs = on if quick else [x for x in on if "@2024" in x.name][:14]
-    rx = run_model(model_cfg("Export_StrTime.cfg", consts, invs="", shapes="few" if quick else "all", export=True), cov_scs, consts, small=small)
+    rx = F["cover"].result()
     ck.add_tlc(rx, "Export_StrTime(cover)")
     behs = vlib.behaviours(rx)
     rx.out = ""
     if len(behs) < 1000:
         raise vlib.Infra("behaviour export produced too few sequences")
-    ex1 = exes_from_behaviours(behs, cov_scs, small, rng, pool, 1, "tlc-cover")
+    ex1 = exes_from_behaviours(behs, cov_scs, small, rng, pool, 1, "tlc-cover", extra_every=2 if quick else 3)
     n_tlc += len(behs)
     exes += ex1
     # all sequences up to a length bound over the reduced boundary set (no VIEW: one state per sequence)
-    for maxlen, sub in ((3, on[::3] if quick else [x for x in on if "@2024" in x.name]), (4, [] if quick else on[1:8:3])):
-        if not sub:
-            continue
-        ra = run_model(model_cfg("ExportAll_StrTime.cfg", consts, invs="NoStaleField", shapes="few", export=True, view=False, maxlen=maxlen),
-                       sub, consts, small=True)
+    for maxlen, sub in all_sets:
+        ra = F[f"all{maxlen}"].result()
         ck.add_tlc(ra, f"Export_StrTime(all sequences <= {maxlen})")
         behs2 = vlib.behaviours(ra)
         ra.out = ""
@@ -838,14 +885,14 @@ def run(ck):
         del behs2
     cap = 150 if quick else 600
     if off:
-        rxo = run_model(model_cfg("Export_StrTime_off.cfg", consts, invs="", shapes="few", modes=("local",), export=True), off, consts, small=True)
+        rxo = F["xoff"].result()
         ck.add_tlc(rxo, "Export_StrTime(off-grid)")
         b = vlib.behaviours(rxo)
         rng.shuffle(b)
         exes += exes_from_behaviours(b[:cap], off, True, rng, pool, 0, "tlc-cover-offgrid")
         n_tlc += len(b[:cap])
     if consts["accepts_opaque"]:
-        rxq = run_model(model_cfg("Export_StrTime_opq.cfg", consts, invs="", shapes="opaque", export=True), on[:2], consts, small=True)
+        rxq = F["xopq"].result()
         ck.add_tlc(rxq, "Export_StrTime(opaque)")
         b = vlib.behaviours(rxq)
         rng.shuffle(b)
@@ -912,7 +959,7 @@ def run(ck):
         n_out += sum(1 for e in batch if e.outside)
         batch = [e for e in batch if not e.outside]
         kept += len(batch)
-        rj, dr = validate(ck, batch, consts, chunk=25000, par=vlib.NCPU)
+        rj, dr = validate(ck, batch, consts, chunk=25000, par=max(4, vlib.NCPU - 4))
         rejected += rj
         drift += dr
         keep = {id(e) for e, _ in rj} | {id(e) for e, _ in dr[:5]}
@@ -924,6 +971,7 @@ def run(ck):
         vlib.log(f"[C13] batch {b0 // B + 1}: {len(batch)} executions judged at {time.time() - ck.t0:.0f}s")
     ck.extra["executions_outside_quantifier_libc_epoch_ambiguous"] = n_out
     exes = [e for e in exes if not e.outside]
+    _trace_selftest(ck, exe, consts, utc)
     vlib.log(f"[C13] validation done at {time.time() - ck.t0:.0f}s")
     for e in exes:
         nontriv = len(e.seq) >= 2 and (any(c in e.pat for c in PATCHED) or "%Q" in e.pat)
@@ -941,6 +989,28 @@ def run(ck):
                      "tlc_counterexamples_replayed": [e.describe() for e in cex]})
     if not consts["grid_rule_confirmed"] or any(r is not None and r.violated for r in (rm,)):
         ck.exhaustive = False
+
+
+def _trace_selftest(ck, exe, consts, utc):
+    """vacuity control of the trace spec: a recorded execution with one corrupted field must be rejected, with a
+    wrong model constant it must be accepted by the contract but reported as drift"""
+    e = Exe(utc, "g", "%H:%M:%S.%Qms %p", [(43198, 5000000), (43199, 1), (43200, 999999999), (43201, 0), (43100, 7)], "selftest")
+    run_group(exe, "UTC", [e], consts)
+    r, marks = _validate_lines(e.lines, trace_cfg(consts, batch=False))
+    if r.violated or marks["REJECT"]:
+        return                      # the code itself fails here; the main run reports it
+    bad = [dict(x) for x in e.lines]
+    bad[3]["out"] = bad[3]["out"][:-4] + "0" + bad[3]["out"][-3:]
+    r2, m2 = _validate_lines(bad, trace_cfg(consts, batch=False))
+    if r2.violated != "Conforms" or set(m2["REJECT"]) != {4}:
+        raise vlib.Infra("trace spec self-test: a corrupted rendered text was not rejected")
+    wrong = dict(consts, recalc_gmt=consts["recalc_gmt"] * 2)
+    cfgw = vlib.write_cfg(vlib.BUILD / "cfg" / "TraceStrTimeSelf.cfg", trace_cfg(wrong, batch=True).read_text())
+    trace_cfg(consts, batch=True)
+    r3, m3 = _validate_lines(e.lines, cfgw)
+    if m3["REJECT"] or not m3["DRIFT"]:
+        raise vlib.Infra("trace spec self-test: a wrong model constant was not reported as drift only")
+    ck.extra["trace_spec_selftest"] = "corrupted field rejected at its line; wrong model constant reported as drift, not as violation"
 
 
 def replay(ck, path):
